@@ -78,6 +78,7 @@ def run(ctx, model):
                             [b"\x22" * 8, b"\x33" * 8], rep,
                             check=lambda impl, case, policy=policy, faults=faults: oracle(ctx, impl, case, policy, faults))
     run_real_socket(ctx, model)
+    tr.run_altered_client(ctx, model, lines, pend, "C10", n=ctx.budget(30, 300))
     ctx.extra["exhaustive_subdomains"] = "every single-fault position (send raises / message lost / receive raises) x 4 target policies of a 7-call representative history"
     tr.flush(ctx, model, lines, pend)
 
